@@ -4,3 +4,604 @@ From VRP Require Import Base.Tac Model.Core Spec.Feasible Spec.Valid Proofs.Vali
 Lemma valid_b_nil P S :
   valid_b P S = [] <-> precond_viol P = [] /\ accounted_b P S = [] /\ feasible_viols P S = [] /\ replay_viol P S = [].
 Proof. unfold valid_b. rewrite !app_nil_iff. tauto. Qed.
+
+(* ------------------------------------------------------------------ generic list facts *)
+Lemma concat_nil_iff {A} (l : list (list A)) : concat l = [] <-> forall x, In x l -> x = [].
+Proof.
+  induction l as [|y r IH]; cbn [concat].
+  - split; [intros _ x []|reflexivity].
+  - rewrite app_nil_iff, IH. split.
+    + intros [H1 H2] x [<-|Hx]; auto.
+    + intros H. split; [apply H; left; reflexivity|intros x Hx; apply H; right; exact Hx].
+Qed.
+
+Lemma mapi_from_In {A B} (f : Z -> A -> B) (l : list A) : forall k n x,
+  nth_error l n = Some x -> In (f (k + Z.of_nat n) x) (mapi_from k f l).
+Proof.
+  induction l as [|y r IH]; intros k n x H.
+  - destruct n; discriminate.
+  - destruct n as [|n]; cbn [nth_error] in H; cbn [mapi_from].
+    + injection H as ->. left. f_equal. lia.
+    + right. replace (k + Z.of_nat (S n)) with ((k + 1) + Z.of_nat n) by lia. apply IH. exact H.
+Qed.
+
+Lemma concat_mapi_nil {A B} (f : Z -> A -> list B) l n x :
+  concat (mapi f l) = [] -> nth_error l n = Some x -> f (Z.of_nat n) x = [].
+Proof.
+  intros H Hn. rewrite concat_nil_iff in H. apply H. unfold mapi.
+  change (Z.of_nat n) with (0 + Z.of_nat n). apply mapi_from_In. exact Hn.
+Qed.
+
+Lemma nth_error_upd_nth_eq {A} (f : A -> A) l : forall n x,
+  nth_error l n = Some x -> nth_error (upd_nth n f l) n = Some (f x).
+Proof.
+  induction l as [|y r IH]; intros n x H; destruct n; cbn in *; try discriminate.
+  - injection H as ->. reflexivity.
+  - apply IH. exact H.
+Qed.
+
+Lemma filter_del_nth {A} (p : A -> bool) l : forall i u,
+  nth_error l i = Some u -> p u = true -> length (filter p l) = S (length (filter p (del_nth i l))).
+Proof.
+  induction l as [|x r IH]; intros i u H Hp; destruct i; cbn [nth_error] in H; try discriminate.
+  - injection H as ->. cbn [filter del_nth]. rewrite Hp. reflexivity.
+  - cbn [filter del_nth]. destruct (p x); cbn [length]; rewrite (IH i u H Hp); reflexivity.
+Qed.
+
+(* ------------------------------------------------------------------ what validity says about one tour *)
+Lemma valid_tour P S k t : valid_b P S = [] -> nth_error (sl_tours S) k = Some t ->
+  feasible_viol P (Z.of_nat k) t = [] /\ replay_tour P (Z.of_nat k) t = [].
+Proof.
+  intros H Hk. apply valid_b_nil in H. destruct H as (_ & _ & HF & HR).
+  unfold feasible_viols in HF. unfold replay_viol in HR. apply app_nil_iff in HR. destruct HR as [HR _].
+  split; [exact (concat_mapi_nil _ _ _ _ HF Hk)|exact (concat_mapi_nil _ _ _ _ HR Hk)].
+Qed.
+
+Lemma accounted_job_viol P S job : accounted_b P S = [] -> In job (pr_jobs P) -> job_viol S job = [].
+Proof. unfold accounted_b. rewrite !app_nil_iff, flat_map_nil_iff. intros [H _] Hin. apply H. exact Hin. Qed.
+
+Lemma plan_job P j : In j (job_ids P) -> exists job, In job (pr_jobs P) /\ pj_id job = j.
+Proof. unfold job_ids. rewrite in_map_iff. intros [job [H1 H2]]. exists job. auto. Qed.
+
+(* ------------------------------------------------------------------ the per-job clause, by cases *)
+Ltac jv_cases S job :=
+  unfold job_viol;
+  destruct (tours_with (pj_id job) S) as [|?t [|?t' ?ts]]; destruct (unassigned_of (pj_id job) S) as [|?u [|?u' ?us]].
+
+Lemma job_viol_both S job :
+  tours_with (pj_id job) S <> [] -> unassigned_of (pj_id job) S <> [] -> job_viol S job <> [].
+Proof. jv_cases S job; intros H1 H2; try congruence; discriminate. Qed.
+
+Lemma job_viol_un2 S job : (2 <= length (unassigned_of (pj_id job) S))%nat -> job_viol S job <> [].
+Proof. jv_cases S job; cbn [length]; intros H; try lia; discriminate. Qed.
+
+Lemma job_viol_tours2 S job : (2 <= length (tours_with (pj_id job) S))%nat -> job_viol S job <> [].
+Proof. jv_cases S job; cbn [length]; intros H; try lia; discriminate. Qed.
+
+Lemma job_viol_lost S job :
+  tours_with (pj_id job) S = [] -> unassigned_of (pj_id job) S = [] -> job_viol S job <> [].
+Proof. unfold job_viol. intros -> ->. discriminate. Qed.
+
+Lemma job_viol_nil_un S job : job_viol S job = [] -> unassigned_of (pj_id job) S <> [] ->
+  tours_with (pj_id job) S = [] /\ length (unassigned_of (pj_id job) S) = 1%nat.
+Proof. jv_cases S job; intros H1 H2; try congruence; try discriminate H1; split; reflexivity. Qed.
+
+Lemma job_viol_nil_tour S job : job_viol S job = [] -> tours_with (pj_id job) S <> [] ->
+  exists t, tours_with (pj_id job) S = [t] /\ unassigned_of (pj_id job) S = []
+            /\ complete_b job (acts_of (pj_id job) t) = true.
+Proof.
+  jv_cases S job; intros H1 H2; try congruence; try discriminate H1.
+  exists t. split; [reflexivity|]. split; [reflexivity|].
+  apply app_nil_iff in H1. destruct H1 as [H1 _]. apply if_nil_iff in H1. exact H1.
+Qed.
+
+(* ------------------------------------------------------------------ activities of a document and the flattened tour *)
+Lemma flat_acts_In s k : forall l arr a, In a l ->
+  exists f, In f (flat_acts s k arr l) /\ fa_job f = sa_job a /\ fa_kind f = sa_kind a.
+Proof.
+  induction l as [|x r IH]; intros arr a Ha; [destruct Ha|].
+  cbn [flat_acts]. destruct (match sa_time x with Some t => t | None => (ss_arr s, ss_dep s) end) as [b e].
+  destruct Ha as [<-|Ha].
+  - eexists. split; [left; reflexivity|]. split; reflexivity.
+  - destruct (IH e a Ha) as [f [Hf He]]. exists f. split; [right; exact Hf|exact He].
+Qed.
+
+Lemma flat_tour_In t s st a : nth_error (to_stops t) s = Some st -> In a (ss_acts st) ->
+  exists f, In f (flat_tour t) /\ fa_job f = sa_job a /\ fa_kind f = sa_kind a.
+Proof.
+  intros Hs Ha. destruct (flat_acts_In st (Z.of_nat s) (ss_acts st) (ss_arr st) a Ha) as [f [Hf He]].
+  exists f. split; [|exact He]. unfold flat_tour. apply in_concat. exists (flat_stop (Z.of_nat s) st).
+  split; [|exact Hf]. unfold mapi. change (Z.of_nat s) with (0 + Z.of_nat s). apply mapi_from_In. exact Hs.
+Qed.
+
+(* a job activity of the document puts its tour among the tours of that job *)
+Lemma act_in_tours_with S k s a t st x :
+  nth_error (sl_tours S) k = Some t -> nth_error (to_stops t) s = Some st -> nth_error (ss_acts st) a = Some x ->
+  is_job_act x = true ->
+  In t (tours_with (sa_job x) S) /\ exists f, In f (job_acts t) /\ fa_job f = sa_job x.
+Proof.
+  intros Hk Hs Ha Hj. destruct (flat_tour_In t s st x Hs (nth_error_In _ _ Ha)) as [f [Hf [Hfj Hfk]]].
+  assert (Hja : In f (job_acts t)).
+  { unfold job_acts. apply filter_In. split; [exact Hf|]. rewrite Hfk. exact Hj. }
+  split; [|exists f; auto].
+  unfold tours_with. apply filter_In. split; [exact (nth_error_In _ _ Hk)|].
+  assert (Hin : In f (acts_of (sa_job x) t)).
+  { unfold acts_of. apply filter_In. split; [exact Hja|]. apply Z.eqb_eq. exact Hfj. }
+  destruct (acts_of (sa_job x) t); [destruct Hin|reflexivity].
+Qed.
+
+Lemma site_act S k s a x : act_at S k s a = Some x ->
+  exists t st, nth_error (sl_tours S) k = Some t /\ nth_error (to_stops t) s = Some st /\ nth_error (ss_acts st) a = Some x.
+Proof.
+  unfold act_at, stop_at, tour_at. destruct (nth_error (sl_tours S) k) as [t|] eqn:Hk; [|discriminate].
+  destruct (nth_error (to_stops t) s) as [st|] eqn:Hs; [|discriminate]. intros H. exists t, st.
+  split; [reflexivity|split; [exact Hs|exact H]].
+Qed.
+
+(* ------------------------------------------------------------------ statistic of the whole solution *)
+Lemma total_checks_eq S : total_checks S = [] ->
+  stat_fields (sl_stat S) = stat_fields (fold_left stat_add (map to_stat (sl_tours S)) stat0).
+Proof.
+  unfold total_checks. remember (fold_left stat_add (map to_stat (sl_tours S)) stat0) as sum.
+  unfold stat_fields. cbn [combine mapi mapi_from concat fst snd]. intros H.
+  repeat match type of H with
+         | context [?a =? ?b] => destruct (Z.eqb_spec a b) as [?e|?e]; [|cbn in H; discriminate H]
+         end.
+  congruence.
+Qed.
+
+Lemma mut_stat_total_invalid P S f d :
+  valid_b P S = [] -> d <> 0 -> (f < 7)%nat -> valid_b P (mutS (MStatTotal f d) S) <> [].
+Proof.
+  intros HV Hd Hf HV'. apply valid_b_nil in HV. apply valid_b_nil in HV'.
+  destruct HV as (_&_&_&HR). destruct HV' as (_&_&_&HR').
+  unfold replay_viol in *. apply app_nil_iff in HR. apply app_nil_iff in HR'.
+  destruct HR as [_ HT]. destruct HR' as [_ HT'].
+  apply total_checks_eq in HT. apply total_checks_eq in HT'. cbn [mutS sl_stat sl_tours] in HT'.
+  rewrite <- HT in HT'. destruct (sl_stat S).
+  do 7 (destruct f as [|f]; [cbn in HT'; injection HT'; intros; lia|]). lia.
+Qed.
+
+(* ------------------------------------------------------------------ the unassigned list *)
+Lemma mut_unknown_un_invalid P S j : zmem j (job_ids P) = false -> valid_b P (mutS (MUnknownUn j) S) <> [].
+Proof.
+  intros Hj HV. apply valid_b_nil in HV. destruct HV as (_&HA&_). apply accounted_b_sound in HA.
+  pose proof (acc_no_foreign_un _ _ HA (j, 1%nat)) as H. cbn in H.
+  assert (Hin : In j (job_ids P)) by (apply H; apply in_or_app; right; left; reflexivity).
+  apply zmem_In in Hin. congruence.
+Qed.
+
+Lemma mut_both_invalid P S k s a x :
+  valid_b P S = [] -> act_at S k s a = Some x -> is_job_act x = true -> valid_b P (mutS (MBoth k s a) S) <> [].
+Proof.
+  intros HV Hx Hj HV'. cbn [mutS] in HV'. rewrite Hx in HV'.
+  destruct (site_act _ _ _ _ _ Hx) as [t [st [Hk [Hs Ha]]]].
+  destruct (act_in_tours_with S k s a t st x Hk Hs Ha Hj) as [Htw [f [Hf Hfj]]].
+  apply valid_b_nil in HV. destruct HV as (_&HA&_). apply valid_b_nil in HV'. destruct HV' as (_&HA'&_).
+  pose proof (acc_no_foreign_act _ _ (accounted_b_sound _ _ HA) t f (nth_error_In _ _ Hk) Hf) as Hplan.
+  rewrite Hfj in Hplan. destruct (plan_job _ _ Hplan) as [job [Hjob Hid]].
+  apply (job_viol_both (set_unassigned (fun l => l ++ [(sa_job x, 1%nat)]) S) job).
+  - rewrite Hid. intros H. unfold tours_with in *. cbn [set_unassigned sl_tours] in H. rewrite H in Htw. destruct Htw.
+  - rewrite Hid. unfold unassigned_of. cbn [set_unassigned sl_unassigned]. rewrite filter_app. cbn [filter fst].
+    rewrite Z.eqb_refl. intros H. apply app_eq_nil in H. destruct H as [_ H]. discriminate H.
+  - exact (accounted_job_viol _ _ _ HA' Hjob).
+Qed.
+
+Lemma mut_dup_un_invalid P S i :
+  valid_b P S = [] -> (i < length (sl_unassigned S))%nat -> valid_b P (mutS (MDupUn i) S) <> [].
+Proof.
+  intros HV Hi HV'. cbn [mutS] in HV'. unfold dup_nth in HV'.
+  destruct (nth_error (sl_unassigned S) i) as [u|] eqn:Hu; [|apply nth_error_None in Hu; lia].
+  apply valid_b_nil in HV. destruct HV as (_&HA&_). apply valid_b_nil in HV'. destruct HV' as (_&HA'&_).
+  pose proof (acc_no_foreign_un _ _ (accounted_b_sound _ _ HA) u (nth_error_In _ _ Hu)) as Hplan.
+  destruct (plan_job _ _ Hplan) as [job [Hjob Hid]].
+  apply (job_viol_un2 (set_unassigned (fun l => match nth_error l i with Some x => l ++ [x] | None => l end) S) job).
+  - rewrite Hid. unfold unassigned_of. cbn [set_unassigned sl_unassigned]. rewrite Hu, filter_app, app_length.
+    cbn [filter]. rewrite Z.eqb_refl. cbn [length].
+    assert (Hin : In u (filter (fun u0 => fst u0 =? fst u) (sl_unassigned S))).
+    { apply filter_In. split; [exact (nth_error_In _ _ Hu)|apply Z.eqb_refl]. }
+    destruct (filter (fun u0 => fst u0 =? fst u) (sl_unassigned S)); [destruct Hin|cbn [length]; lia].
+  - exact (accounted_job_viol _ _ _ HA' Hjob).
+Qed.
+
+Lemma mut_drop_un_invalid P S i :
+  valid_b P S = [] -> (i < length (sl_unassigned S))%nat -> valid_b P (mutS (MDropUn i) S) <> [].
+Proof.
+  intros HV Hi HV'. cbn [mutS] in HV'.
+  destruct (nth_error (sl_unassigned S) i) as [u|] eqn:Hu; [|apply nth_error_None in Hu; lia].
+  apply valid_b_nil in HV. destruct HV as (_&HA&_). apply valid_b_nil in HV'. destruct HV' as (_&HA'&_).
+  pose proof (acc_no_foreign_un _ _ (accounted_b_sound _ _ HA) u (nth_error_In _ _ Hu)) as Hplan.
+  destruct (plan_job _ _ Hplan) as [job [Hjob Hid]].
+  assert (Hin : In u (unassigned_of (pj_id job) S)).
+  { unfold unassigned_of. apply filter_In. split; [exact (nth_error_In _ _ Hu)|]. rewrite Hid. apply Z.eqb_refl. }
+  destruct (job_viol_nil_un S job (accounted_job_viol _ _ _ HA Hjob)) as [Htw Hlen].
+  { intros H. rewrite H in Hin. destruct Hin. }
+  apply (job_viol_lost (set_unassigned (del_nth i) S) job).
+  - exact Htw.
+  - unfold unassigned_of in *. cbn [set_unassigned sl_unassigned].
+    assert (Hp : (fun u0 : Z * nat => fst u0 =? pj_id job) u = true) by (cbv beta; rewrite Hid; apply Z.eqb_refl).
+    pose proof (filter_del_nth (fun u0 : Z * nat => fst u0 =? pj_id job) (sl_unassigned S) i u Hu Hp) as Hl.
+    rewrite Hlen in Hl. destruct (filter _ (del_nth i (sl_unassigned S))); [reflexivity|cbn [length] in Hl; lia].
+  - exact (accounted_job_viol _ _ _ HA' Hjob).
+Qed.
+
+(* ------------------------------------------------------------------ more list facts *)
+Lemma nth_error_upd_nth_neq {A} (f : A -> A) l : forall n m, n <> m -> nth_error (upd_nth n f l) m = nth_error l m.
+Proof.
+  induction l as [|y r IH]; intros n m H; destruct n, m; cbn [upd_nth nth_error]; try reflexivity; try congruence.
+  apply IH. congruence.
+Qed.
+
+Lemma mapi_from_upd_nth {A B} (F : Z -> A -> B) (g : A -> A) l :
+  (forall i x, F i (g x) = F i x) -> forall k n, mapi_from k F (upd_nth n g l) = mapi_from k F l.
+Proof.
+  intros Hg. induction l as [|x r IH]; intros k n; destruct n; cbn [upd_nth mapi_from]; try reflexivity.
+  - rewrite Hg. reflexivity.
+  - rewrite IH. reflexivity.
+Qed.
+
+Lemma filter_one {A} (p : A -> bool) l : forall n y, nth_error l n = Some y -> p y = true -> (1 <= length (filter p l))%nat.
+Proof.
+  induction l as [|x r IH]; intros n y H Hp; destruct n; cbn [nth_error] in H; try discriminate.
+  - injection H as ->. cbn [filter]. rewrite Hp. cbn [length]. lia.
+  - cbn [filter]. specialize (IH n y H Hp). destruct (p x); cbn [length]; lia.
+Qed.
+
+Lemma filter_two {A} (p : A -> bool) l : forall k k2 x y, k <> k2 ->
+  nth_error l k = Some x -> nth_error l k2 = Some y -> p x = true -> p y = true -> (2 <= length (filter p l))%nat.
+Proof.
+  induction l as [|z r IH]; intros k k2 x y Hne Hx Hy Hpx Hpy; destruct k, k2; cbn [nth_error] in *;
+    try discriminate; try congruence.
+  - injection Hx as ->. cbn [filter]. rewrite Hpx. cbn [length]. pose proof (filter_one p r k2 y Hy Hpy). lia.
+  - injection Hy as ->. cbn [filter]. rewrite Hpy. cbn [length]. pose proof (filter_one p r k x Hx Hpx). lia.
+  - cbn [filter]. assert (Hne' : k <> k2) by congruence. specialize (IH k k2 x y Hne' Hx Hy Hpx Hpy).
+    destruct (p z); cbn [length]; lia.
+Qed.
+
+Lemma In_ins_nth {A} (y : A) l n : In y (ins_nth n y l).
+Proof.
+  revert l. induction n as [|n IH]; intros l; cbn [ins_nth]; [left; reflexivity|].
+  destruct l; [left; reflexivity|right; apply IH].
+Qed.
+
+(* ------------------------------------------------------------------ rebuilding and replaying one tour *)
+Lemma rebuild_ext P t t' :
+  to_vehicle t' = to_vehicle t -> to_type t' = to_type t -> to_shift t' = to_shift t -> flat_tour t' = flat_tour t ->
+  rebuild P t' = rebuild P t.
+Proof. intros H1 H2 H3 H4. unfold rebuild, shift_of, vtype_of. rewrite H1, H2, H3, H4. reflexivity. Qed.
+
+Definition rb_facts (r : rebuilt) : list fact :=
+  rb_dep r :: map fst (rb_jobs r) ++ (match rb_arr r with Some e => [e] | None => [] end).
+Definition rb_has_end (r : rebuilt) : bool := match rb_arr r with Some _ => true | None => false end.
+
+Lemma replay_tour_nil P k t : replay_tour P k t = [] -> exists r, rebuild P t = Some r /\
+  act_checks k (rb_facts r) (replay (pdur P) (rb_acts r)) = [] /\
+  stop_checks k t (rb_facts r) (replay (pdur P) (rb_acts r)) (replay_loads (rb_has_end r) (rb_acts r))
+              (replay_cumdist (pdist P) (rb_acts r)) = [] /\
+  stat_checks k (replay_stat P (rb_vt r) (rb_acts r)) (to_stat t) = [].
+Proof.
+  unfold replay_tour. destruct (rebuild P t) as [r|]; [|discriminate]. cbv zeta. rewrite !app_nil_iff.
+  intros (H1&H2&H3&H4). exists r. split; [reflexivity|]. split; [exact H1|]. split; [exact H2|exact H4].
+Qed.
+
+Lemma stop_checks_at k t facts rep loads cum s st :
+  stop_checks k t facts rep loads cum = [] -> nth_error (to_stops t) s = Some st ->
+  exists i, last_index_of_stop (Z.of_nat s) facts 0 None = Some i /\ ss_dep st = snd (nth_z rep i (0, 0))
+            /\ ss_load st = nth_z loads i 0 /\ ss_dist st = nth_z cum i 0.
+Proof.
+  unfold stop_checks. intros H Hs. pose proof (concat_mapi_nil _ _ _ _ H Hs) as H1. cbv beta in H1.
+  apply app_nil_iff in H1. destruct H1 as [_ H1].
+  destruct (last_index_of_stop (Z.of_nat s) facts 0 None) as [i|]; [|discriminate].
+  rewrite !app_nil_iff, !if_nil_iff, !Z.eqb_eq in H1. exists i. tauto.
+Qed.
+
+Lemma stat_checks_eq k rep got : stat_checks k rep got = [] -> stat_fields got = stat_fields rep.
+Proof.
+  unfold stat_checks. rewrite !app_nil_iff, !if_nil_iff, !Z.eqb_eq. intros (H1&H2&H3&H4&H5&H6&H7).
+  unfold stat_fields. congruence.
+Qed.
+
+Lemma feasible_viol_nil P k t r : rebuild P t = Some r -> feasible_viol P k t = [] ->
+  feasible (pdur P) (rb_veh r) (rb_acts r) = true
+  /\ le_opt (tour_legs (pdist P) (rb_acts r)) (vt_maxdist (rb_vt r)) = true
+  /\ le_opt (replay_duration (pdur P) (rb_acts r)) (vt_maxdur (rb_vt r)) = true
+  /\ le_opt (Z.of_nat (length (rb_jobs r))) (vt_toursize (rb_vt r)) = true.
+Proof. unfold feasible_viol. intros ->. cbv zeta. rewrite !app_nil_iff, !if_nil_iff. tauto. Qed.
+
+Lemma rebuild_vt P t r : rebuild P t = Some r -> In (rb_vt r) (pr_fleet P) /\ vt_id (rb_vt r) = to_type t.
+Proof.
+  unfold rebuild, shift_of, vtype_of. destruct (find _ (pr_fleet P)) as [vt|] eqn:Hf; [|discriminate].
+  destruct (nth_error (vt_shifts vt) (to_shift t)) as [sh|]; [|discriminate]. cbv zeta.
+  destruct (split_tour _ (flat_tour t)) as [[[d js] e]|]; [|discriminate].
+  destruct (match_all P js) as [ms|]; [|discriminate]. intros H. injection H as <-. cbn [rb_vt].
+  apply find_some in Hf. destruct Hf as [Hin Hb]. split; [exact Hin|].
+  apply andb_true_iff in Hb. destruct Hb as [Hb _]. apply andb_true_iff in Hb. destruct Hb as [Hb _].
+  apply Z.eqb_eq. exact Hb.
+Qed.
+
+Lemma upd_type_found tid g fleet vt : (forall v, vt_id (g v) = vt_id v) ->
+  In vt (map (fun v => if vt_id v =? tid then g v else v) fleet) -> vt_id vt = tid -> exists v0, vt = g v0.
+Proof.
+  intros Hg Hin Hid. apply in_map_iff in Hin. destruct Hin as [v0 [Hv0 _]].
+  destruct (Z.eqb_spec (vt_id v0) tid) as [e|ne].
+  - exists v0. symmetry. exact Hv0.
+  - exfalso. subst vt. contradiction.
+Qed.
+
+Lemma flat_acts_ext s s' k : ss_loc s = ss_loc s' -> ss_arr s = ss_arr s' -> ss_dep s = ss_dep s' ->
+  forall l arr, flat_acts s k arr l = flat_acts s' k arr l.
+Proof.
+  intros H1 H2 H3. induction l as [|a r IH]; intros arr; cbn [flat_acts]; [reflexivity|].
+  rewrite H1, H2, H3. destruct (match sa_time a with Some t => t | None => (ss_arr s', ss_dep s') end) as [b e].
+  rewrite IH. reflexivity.
+Qed.
+
+Lemma flat_tour_upd t s g : (forall i x, flat_stop i (g x) = flat_stop i x) -> flat_tour (set_stops (upd_nth s g) t) = flat_tour t.
+Proof.
+  intros Hg. unfold flat_tour, mapi. cbn [set_stops to_stops]. rewrite mapi_from_upd_nth; [reflexivity|exact Hg].
+Qed.
+
+(* a change of a stop that the flattened tour does not see leaves the replayed load and distance of that stop as they were *)
+Lemma stop_mut_replay P S k s g t st :
+  (forall i x, flat_stop i (g x) = flat_stop i x) ->
+  valid_b P S = [] -> valid_b P (upd_stop k s g S) = [] ->
+  nth_error (sl_tours S) k = Some t -> nth_error (to_stops t) s = Some st ->
+  ss_load (g st) = ss_load st /\ ss_dist (g st) = ss_dist st.
+Proof.
+  intros Hg HV HV' Hk Hs.
+  destruct (valid_tour _ _ _ _ HV Hk) as [_ HR].
+  assert (Hk' : nth_error (sl_tours (upd_stop k s g S)) k = Some (set_stops (upd_nth s g) t)).
+  { cbn [upd_stop set_tours sl_tours]. apply nth_error_upd_nth_eq. exact Hk. }
+  destruct (valid_tour _ _ _ _ HV' Hk') as [_ HR'].
+  destruct (replay_tour_nil _ _ _ HR) as [r [Hr [_ [Hst _]]]].
+  destruct (replay_tour_nil _ _ _ HR') as [r' [Hr' [_ [Hst' _]]]].
+  rewrite (rebuild_ext P t (set_stops (upd_nth s g) t) eq_refl eq_refl eq_refl (flat_tour_upd t s g Hg)) in Hr'.
+  rewrite Hr in Hr'. injection Hr' as <-.
+  destruct (stop_checks_at _ _ _ _ _ _ s st Hst Hs) as [i [Hi [_ [Hl Hd]]]].
+  assert (Hs' : nth_error (to_stops (set_stops (upd_nth s g) t)) s = Some (g st)).
+  { cbn [set_stops to_stops]. apply nth_error_upd_nth_eq. exact Hs. }
+  destruct (stop_checks_at _ _ _ _ _ _ s (g st) Hst' Hs') as [i' [Hi' [_ [Hl' Hd']]]].
+  rewrite Hi in Hi'. injection Hi' as <-. split; congruence.
+Qed.
+
+Lemma flat_stop_add_load d i x : flat_stop i (add_load d x) = flat_stop i x.
+Proof. unfold flat_stop. cbn [add_load ss_arr ss_acts]. apply flat_acts_ext; reflexivity. Qed.
+Lemma flat_stop_add_dist d i x : flat_stop i (add_dist d x) = flat_stop i x.
+Proof. unfold flat_stop. cbn [add_dist ss_arr ss_acts]. apply flat_acts_ext; reflexivity. Qed.
+
+Lemma site_stop S k s : stop_at S k s <> None ->
+  exists t st, nth_error (sl_tours S) k = Some t /\ nth_error (to_stops t) s = Some st.
+Proof.
+  unfold stop_at, tour_at. destruct (nth_error (sl_tours S) k) as [t|] eqn:Hk; [|congruence].
+  destruct (nth_error (to_stops t) s) as [st|] eqn:Hs; [|congruence]. intros _. exists t, st. split; [reflexivity|exact Hs].
+Qed.
+
+Lemma mut_load_invalid P S k s d :
+  valid_b P S = [] -> d <> 0 -> stop_at S k s <> None -> valid_b P (mutS (MLoad k s d) S) <> [].
+Proof.
+  intros HV Hd Hsite HV'. destruct (site_stop _ _ _ Hsite) as [t [st [Hk Hs]]].
+  destruct (stop_mut_replay P S k s (add_load d) t st (flat_stop_add_load d) HV HV' Hk Hs) as [H _].
+  cbn in H. lia.
+Qed.
+
+Lemma mut_distance_invalid P S k s d :
+  valid_b P S = [] -> d <> 0 -> stop_at S k s <> None -> valid_b P (mutS (MDistance k s d) S) <> [].
+Proof.
+  intros HV Hd Hsite HV'. destruct (site_stop _ _ _ Hsite) as [t [st [Hk Hs]]].
+  destruct (stop_mut_replay P S k s (add_dist d) t st (flat_stop_add_dist d) HV HV' Hk Hs) as [_ H].
+  cbn in H. lia.
+Qed.
+
+Lemma mut_stat_tour_invalid P S k f d :
+  valid_b P S = [] -> d <> 0 -> (f < 7)%nat -> tour_at S k <> None -> valid_b P (mutS (MStatTour k f d) S) <> [].
+Proof.
+  intros HV Hd Hf Hsite HV'. unfold tour_at in Hsite.
+  destruct (nth_error (sl_tours S) k) as [t|] eqn:Hk; [|congruence].
+  destruct (valid_tour _ _ _ _ HV Hk) as [_ HR].
+  assert (Hk' : nth_error (sl_tours (mutS (MStatTour k f d) S)) k = Some (set_tstat (add_stat f d) t)).
+  { cbn [mutS set_tours sl_tours]. apply nth_error_upd_nth_eq. exact Hk. }
+  destruct (valid_tour _ _ _ _ HV' Hk') as [_ HR'].
+  destruct (replay_tour_nil _ _ _ HR) as [r [Hr [_ [_ Hst]]]].
+  destruct (replay_tour_nil _ _ _ HR') as [r' [Hr' [_ [_ Hst']]]].
+  rewrite (rebuild_ext P t (set_tstat (add_stat f d) t) eq_refl eq_refl eq_refl eq_refl) in Hr'.
+  rewrite Hr in Hr'. injection Hr' as <-.
+  apply stat_checks_eq in Hst. apply stat_checks_eq in Hst'. cbn [set_tstat to_stat] in Hst'. rewrite <- Hst in Hst'.
+  destruct (to_stat t).
+  do 7 (destruct f as [|f]; [cbn in Hst'; injection Hst'; intros; lia|]). lia.
+Qed.
+
+Lemma mut_unknown_act_invalid P S k s a j x :
+  zmem j (job_ids P) = false -> act_at S k s a = Some x -> is_job_act x = true ->
+  valid_b P (mutS (MUnknownAct k s a j) S) <> [].
+Proof.
+  intros Hj Hx Hjob HV'. destruct (site_act _ _ _ _ _ Hx) as [t [st [Hk [Hs Ha]]]].
+  assert (Hk' : nth_error (sl_tours (mutS (MUnknownAct k s a j) S)) k
+                = Some (set_stops (upd_nth s (set_acts (upd_nth a (set_job j)))) t)).
+  { cbn [mutS upd_stop set_tours sl_tours]. apply nth_error_upd_nth_eq. exact Hk. }
+  assert (Hs' : nth_error (to_stops (set_stops (upd_nth s (set_acts (upd_nth a (set_job j)))) t)) s
+                = Some (set_acts (upd_nth a (set_job j)) st)).
+  { cbn [set_stops to_stops]. apply nth_error_upd_nth_eq. exact Hs. }
+  assert (Ha' : nth_error (ss_acts (set_acts (upd_nth a (set_job j)) st)) a = Some (set_job j x)).
+  { cbn [set_acts ss_acts]. apply nth_error_upd_nth_eq. exact Ha. }
+  destruct (act_in_tours_with _ k s a _ _ _ Hk' Hs' Ha' Hjob) as [_ [f [Hf Hfj]]].
+  apply valid_b_nil in HV'. destruct HV' as (_&HA'&_).
+  pose proof (acc_no_foreign_act _ _ (accounted_b_sound _ _ HA') _ f (nth_error_In _ _ Hk') Hf) as Hplan.
+  rewrite Hfj in Hplan. cbn [set_job sa_job] in Hplan. apply zmem_In in Hplan. congruence.
+Qed.
+
+Lemma mut_copy_stop_invalid P S k s k2 st :
+  valid_b P S = [] -> k <> k2 -> stop_at S k s = Some st -> has_job_act st = true -> tour_at S k2 <> None ->
+  valid_b P (mutS (MCopyStop k s k2) S) <> [].
+Proof.
+  intros HV Hne Hst Hjob Hk2 HV'. cbn [mutS] in HV'. rewrite Hst in HV'.
+  pose (S' := set_tours (upd_nth k2 (set_stops (ins_nth 1 st))) S). change (valid_b P S' = []) in HV'.
+  unfold stop_at, tour_at in Hst, Hk2. destruct (nth_error (sl_tours S) k) as [t|] eqn:Hk; [|discriminate].
+  destruct (nth_error (sl_tours S) k2) as [t2|] eqn:Hk2'; [|congruence].
+  unfold has_job_act in Hjob. apply existsb_exists in Hjob. destruct Hjob as [x [Hx Hxj]].
+  destruct (In_nth_error _ _ Hx) as [a Ha].
+  destruct (act_in_tours_with S k s a t st x Hk Hst Ha Hxj) as [_ [f [Hf Hfj]]].
+  apply valid_b_nil in HV. destruct HV as (_&HA&_). apply valid_b_nil in HV'. destruct HV' as (_&HA'&_).
+  pose proof (acc_no_foreign_act _ _ (accounted_b_sound _ _ HA) t f (nth_error_In _ _ Hk) Hf) as Hplan.
+  rewrite Hfj in Hplan. destruct (plan_job _ _ Hplan) as [job [Hjb Hid]].
+  apply (job_viol_tours2 S' job); [|exact (accounted_job_viol _ _ _ HA' Hjb)].
+  rewrite Hid.
+  assert (Hk' : nth_error (sl_tours S') k = Some t).
+  { unfold S'. cbn [set_tours sl_tours]. rewrite nth_error_upd_nth_neq; [exact Hk|congruence]. }
+  assert (Hk2'' : nth_error (sl_tours S') k2 = Some (set_stops (ins_nth 1 st) t2)).
+  { unfold S'. cbn [set_tours sl_tours]. apply nth_error_upd_nth_eq. exact Hk2'. }
+  destruct (In_nth_error _ _ (In_ins_nth st (to_stops t2) 1)) as [s2 Hs2].
+  destruct (act_in_tours_with S' k s a t st x Hk' Hst Ha Hxj) as [H1 _].
+  destruct (act_in_tours_with S' k2 s2 a (set_stops (ins_nth 1 st) t2) st x Hk2'' Hs2 Ha Hxj) as [H2 _].
+  unfold tours_with in *. apply filter_In in H1. apply filter_In in H2.
+  eapply filter_two; [exact Hne|exact Hk'|exact Hk2''|exact (proj2 H1)|exact (proj2 H2)].
+Qed.
+
+(* ------------------------------------------------------------------ limits: the bound just below the reported value *)
+Lemma limit_setup P' S k t : valid_b P' S = [] -> nth_error (sl_tours S) k = Some t ->
+  exists r, rebuild P' t = Some r
+    /\ st_dist (to_stat t) = tour_legs (pdist P') (rb_acts r) /\ st_dur (to_stat t) = replay_duration (pdur P') (rb_acts r)
+    /\ le_opt (tour_legs (pdist P') (rb_acts r)) (vt_maxdist (rb_vt r)) = true
+    /\ le_opt (replay_duration (pdur P') (rb_acts r)) (vt_maxdur (rb_vt r)) = true
+    /\ le_opt (Z.of_nat (length (rb_jobs r))) (vt_toursize (rb_vt r)) = true.
+Proof.
+  intros HV Hk. destruct (valid_tour _ _ _ _ HV Hk) as [HF HR].
+  destruct (replay_tour_nil _ _ _ HR) as [r [Hr [_ [_ Hstat]]]].
+  destruct (feasible_viol_nil _ _ _ _ Hr HF) as (_ & Hd & Hu & Hn).
+  apply stat_checks_eq in Hstat. unfold stat_fields, replay_stat in Hstat.
+  cbn [st_cost st_dist st_dur st_drive st_serve st_wait st_break] in Hstat.
+  injection Hstat as _ Hdist Hdur _ _ _ _. exists r. auto 10.
+Qed.
+
+Lemma mut_limit_distance_invalid P S k t :
+  tour_at S k = Some t -> valid_b (mutP (MLimitDistance k) P S) (mutS (MLimitDistance k) S) <> [].
+Proof.
+  intros Hk HV'. cbn [mutP mutS] in HV'. rewrite Hk in HV'. unfold tour_at in Hk.
+  destruct (limit_setup _ _ _ _ HV' Hk) as [r (Hr & Hdist & _ & Hd & _)].
+  destruct (rebuild_vt _ _ _ Hr) as [Hin Hid].
+  destruct (upd_type_found (to_type t) (set_maxdist (st_dist (to_stat t) - 1)) (pr_fleet P) (rb_vt r)
+                           (fun v => eq_refl) Hin Hid) as [v0 Hv0].
+  rewrite Hv0 in Hd. cbn [set_maxdist vt_maxdist le_opt] in Hd. apply Z.leb_le in Hd. lia.
+Qed.
+
+Lemma mut_limit_duration_invalid P S k t :
+  tour_at S k = Some t -> valid_b (mutP (MLimitDuration k) P S) (mutS (MLimitDuration k) S) <> [].
+Proof.
+  intros Hk HV'. cbn [mutP mutS] in HV'. rewrite Hk in HV'. unfold tour_at in Hk.
+  destruct (limit_setup _ _ _ _ HV' Hk) as [r (Hr & _ & Hdur & _ & Hd & _)].
+  destruct (rebuild_vt _ _ _ Hr) as [Hin Hid].
+  destruct (upd_type_found (to_type t) (set_maxdur (st_dur (to_stat t) - 1)) (pr_fleet P) (rb_vt r)
+                           (fun v => eq_refl) Hin Hid) as [v0 Hv0].
+  rewrite Hv0 in Hd. cbn [set_maxdur vt_maxdur le_opt] in Hd. apply Z.leb_le in Hd. lia.
+Qed.
+
+(* ------------------------------------------------------------------ shape of a rebuilt tour; tour size *)
+Lemma split_tour_spec has_end l d js e : split_tour has_end l = Some (d, js, e) ->
+  l = d :: js ++ (match e with Some x => [x] | None => [] end) /\ fa_kind d = 10
+  /\ forallb (fun a => is_job_kind (fa_kind a)) js = true /\ (forall x, e = Some x -> fa_kind x = 11).
+Proof.
+  unfold split_tour. destruct l as [|d0 r]; [discriminate|].
+  destruct (fa_kind d0 =? 10) eqn:Hd; cbn [negb]; [|discriminate].
+  destruct has_end.
+  - destruct (rev r) as [|e0 jr] eqn:Hr; [discriminate|].
+    destruct ((fa_kind e0 =? 11) && forallb (fun a => is_job_kind (fa_kind a)) jr) eqn:Hb; [|discriminate].
+    intros H. injection H as <- <- <-. apply andb_true_iff in Hb. destruct Hb as [He Hj].
+    assert (Hrr : r = rev jr ++ [e0]). { rewrite <- (rev_involutive r), Hr. reflexivity. }
+    split; [rewrite Hrr; reflexivity|]. split; [apply Z.eqb_eq; exact Hd|]. split.
+    + rewrite forallb_forall in *. intros a Ha. apply Hj. apply (proj2 (in_rev jr a)). exact Ha.
+    + intros x Hx. injection Hx as <-. apply Z.eqb_eq. exact He.
+  - destruct (forallb (fun a => is_job_kind (fa_kind a)) r) eqn:Hj; [|discriminate]. intros H. injection H as <- <- <-.
+    split; [rewrite app_nil_r; reflexivity|]. split; [apply Z.eqb_eq; exact Hd|]. split; [exact Hj|].
+    intros x Hx. discriminate Hx.
+Qed.
+
+Lemma match_all_fst P l : forall ms, match_all P l = Some ms -> map fst ms = l.
+Proof.
+  induction l as [|a r IH]; intros ms; cbn [match_all].
+  - intros H. injection H as <-. reflexivity.
+  - destruct (match_act P a) as [m|]; [|discriminate]. destruct (match_all P r) as [ms'|]; [|discriminate].
+    intros H. injection H as <-. cbn [map fst]. rewrite (IH ms' eq_refl). reflexivity.
+Qed.
+
+Lemma rebuild_spec P t r : rebuild P t = Some r ->
+  flat_tour t = rb_facts r /\ fa_kind (rb_dep r) = 10
+  /\ forallb (fun a => is_job_kind (fa_kind a)) (map fst (rb_jobs r)) = true
+  /\ (forall x, rb_arr r = Some x -> fa_kind x = 11).
+Proof.
+  unfold rebuild. destruct (shift_of P t) as [[vt sh]|]; [|discriminate]. cbv zeta.
+  destruct (split_tour _ (flat_tour t)) as [[[d js] e]|] eqn:Hsp; [|discriminate].
+  destruct (match_all P js) as [ms|] eqn:Hm; [|discriminate]. intros H. injection H as <-.
+  unfold rb_facts. cbn [rb_dep rb_jobs rb_arr]. rewrite (match_all_fst _ _ _ Hm).
+  destruct (split_tour_spec _ _ _ _ _ Hsp) as (H1 & H2 & H3 & H4). auto.
+Qed.
+
+Lemma filter_all {A} (p : A -> bool) l : forallb p l = true -> filter p l = l.
+Proof.
+  induction l as [|x r IH]; cbn [forallb filter]; [reflexivity|]. intros H. apply andb_true_iff in H.
+  destruct H as [H1 H2]. rewrite H1, (IH H2). reflexivity.
+Qed.
+
+Lemma rebuild_job_acts P t r : rebuild P t = Some r -> job_acts t = map fst (rb_jobs r).
+Proof.
+  intros Hr. destruct (rebuild_spec _ _ _ Hr) as (H1 & H2 & H3 & H4). unfold job_acts. rewrite H1. unfold rb_facts.
+  cbn [filter]. rewrite H2. change (is_job_kind 10) with false. cbv iota. rewrite filter_app, (filter_all _ _ H3).
+  destruct (rb_arr r) as [x|]; [|cbn [filter]; apply app_nil_r].
+  cbn [filter]. rewrite (H4 x eq_refl). change (is_job_kind 11) with false. cbv iota. apply app_nil_r.
+Qed.
+
+Lemma mut_limit_size_invalid P S k t :
+  tour_at S k = Some t -> valid_b (mutP (MLimitSize k) P S) (mutS (MLimitSize k) S) <> [].
+Proof.
+  intros Hk HV'. cbn [mutP mutS] in HV'. rewrite Hk in HV'. unfold tour_at in Hk.
+  destruct (limit_setup _ _ _ _ HV' Hk) as [r (Hr & _ & _ & _ & _ & Hd)].
+  destruct (rebuild_vt _ _ _ Hr) as [Hin Hid].
+  destruct (upd_type_found (to_type t) (set_toursize (Z.of_nat (length (job_acts t)) - 1)) (pr_fleet P) (rb_vt r)
+                           (fun v => eq_refl) Hin Hid) as [v0 Hv0].
+  rewrite Hv0 in Hd. cbn [set_toursize vt_toursize le_opt] in Hd. apply Z.leb_le in Hd.
+  rewrite (rebuild_job_acts _ _ _ Hr), map_length in Hd. lia.
+Qed.
+
+(* ------------------------------------------------------------------ all proved classes at once *)
+Lemma some_b_true {A} (o : option A) f : some_b o f = true -> exists x, o = Some x /\ f x = true.
+Proof. destruct o as [x|]; cbn [some_b]; [intros H; exists x; auto|discriminate]. Qed.
+Lemma negb_eqb_true d : negb (d =? 0) = true -> d <> 0.
+Proof. intros H. apply negb_true_iff in H. apply Z.eqb_neq in H. exact H. Qed.
+
+Lemma breach_is_invalid_partial m P S :
+  valid_b P S = [] -> applicable_b m P S = true ->
+  match m with MCapacity _ _ | MArrival _ _ _ | MDupAct _ _ | MDropStop _ _ | MMoveStop _ _ _ => True
+          | _ => valid_b (mutP m P S) (mutS m S) <> [] end.
+Proof.
+  intros HV Happ. destruct m; cbn [applicable_b] in Happ; cbv beta iota; try exact I; cbn [mutP].
+  - apply andb_true_iff in Happ. destruct Happ as [Hd Hs]. apply negb_eqb_true in Hd.
+    apply some_b_true in Hs. destruct Hs as [st [Hs _]]. apply mut_load_invalid; [exact HV|exact Hd|congruence].
+  - apply andb_true_iff in Happ. destruct Happ as [Hj Hx]. apply negb_true_iff in Hj.
+    apply some_b_true in Hx. destruct Hx as [x [Hx Hjob]]. exact (mut_unknown_act_invalid P S k s a j x Hj Hx Hjob).
+  - apply negb_true_iff in Happ. apply mut_unknown_un_invalid. exact Happ.
+  - apply Nat.ltb_lt in Happ. apply mut_dup_un_invalid; assumption.
+  - apply Nat.ltb_lt in Happ. apply mut_drop_un_invalid; assumption.
+  - apply andb_true_iff in Happ. destruct Happ as [Happ Hk2]. apply andb_true_iff in Happ. destruct Happ as [Hne Hst].
+    apply negb_true_iff in Hne. apply Nat.eqb_neq in Hne. apply some_b_true in Hst. destruct Hst as [st [Hst Hj]].
+    apply some_b_true in Hk2. destruct Hk2 as [t2 [Hk2 _]].
+    apply (mut_copy_stop_invalid P S k s k2 st HV Hne Hst Hj). congruence.
+  - apply some_b_true in Happ. destruct Happ as [x [Hx Hjob]]. exact (mut_both_invalid P S k s a x HV Hx Hjob).
+  - apply andb_true_iff in Happ. destruct Happ as [Hd Hs]. apply negb_eqb_true in Hd.
+    apply some_b_true in Hs. destruct Hs as [st [Hs _]]. apply mut_distance_invalid; [exact HV|exact Hd|congruence].
+  - apply andb_true_iff in Happ. destruct Happ as [Happ Hk]. apply andb_true_iff in Happ. destruct Happ as [Hd Hf].
+    apply negb_eqb_true in Hd. apply Nat.ltb_lt in Hf. apply some_b_true in Hk. destruct Hk as [t [Hk _]].
+    apply mut_stat_tour_invalid; [exact HV|exact Hd|exact Hf|congruence].
+  - apply andb_true_iff in Happ. destruct Happ as [Hd Hf]. apply negb_eqb_true in Hd. apply Nat.ltb_lt in Hf.
+    apply mut_stat_total_invalid; assumption.
+  - apply some_b_true in Happ. destruct Happ as [t [Hk _]]. exact (mut_limit_distance_invalid P S k t Hk).
+  - apply some_b_true in Happ. destruct Happ as [t [Hk _]]. exact (mut_limit_duration_invalid P S k t Hk).
+  - apply some_b_true in Happ. destruct Happ as [t [Hk _]]. exact (mut_limit_size_invalid P S k t Hk).
+Qed.
+
+Lemma c12_nonvacuous : valid_b ex_P ex_S = []
+  /\ applicable_b (MStatTour 0 0 2) ex_P ex_S = true /\ valid_b ex_P (mutS (MStatTour 0 0 2) ex_S) = [RStatCost 0; RTotal 0]
+  /\ applicable_b (MDistance 0 0 2) ex_P ex_S = true /\ valid_b ex_P (mutS (MDistance 0 0 2) ex_S) = [RDistance 0 0]
+  /\ applicable_b (MCapacity 0 0) ex_P ex_S = true /\ valid_b (mutP (MCapacity 0 0) ex_P ex_S) ex_S <> [].
+Proof.
+  split; [vm_compute; reflexivity|]. split; [vm_compute; reflexivity|]. split; [vm_compute; reflexivity|].
+  split; [vm_compute; reflexivity|]. split; [vm_compute; reflexivity|]. split; [vm_compute; reflexivity|].
+  vm_compute. discriminate.
+Qed.
